@@ -284,7 +284,56 @@ class World:
         return g
 
 
+VISC = "dclab.features.emodulus.viscosity"
+
+
+def run_visc_args(eng, p):
+    """the real viscosity models (dispatcher, range check, shear rate) on a
+    per-event temperature array: the caller's array is left untouched. The
+    transcendental parts (exp, real powers) return fresh reals -- only the
+    data flow into the argument array is decided here."""
+    import vf.symnp as snp
+    from vf.symx import SReal
+    n = p["nev"]
+    cnt = [0]
+
+    def fresh(_=None):
+        cnt[0] += 1
+        return SReal(z3.Real("visc_uf%d" % cnt[0]))
+    temps = [eng.real("T%d" % i) for i in range(n)]
+    lo, hi = p["range"]
+    for t in temps:
+        eng.assume((t >= lo) & (t <= hi))
+    arr = SArr(list(temps), float)
+    npx = SymNP(exp=lambda a: SArr([fresh() for _ in list(a)], float)
+                if hasattr(a, "__len__") else fresh())
+    ns = shadow(VISC, np=npx)
+    old_pow = snp.SArr.__pow__
+
+    def gen_pow(s_, o):
+        if isinstance(o, int):
+            return old_pow(s_, o)
+        return s_._map(fresh)
+    snp.SArr.__pow__ = gen_pow
+    snp.SArr.__rpow__ = lambda s_, o: s_._map(fresh)
+    try:
+        with quiet():
+            ns["get_viscosity"](medium=p["medium"], channel_width=20.0,
+                                flow_rate=0.04, temperature=arr,
+                                model=p["model"])
+    finally:
+        snp.SArr.__pow__ = old_pow
+        del snp.SArr.__rpow__
+    eng.prove(z3.And([toreal(a) == t.e for a, t in zip(list(arr), temps)]
+                     + [z3.BoolVal(len(arr) == n)]),
+              "viscosity model: the caller's temperature array is not "
+              "modified", info={"model": p["model"]})
+    return "ok"
+
+
 def run(eng, p):
+    if p.get("check") == "visc-args":
+        return run_visc_args(eng, p)
     w = World(eng, p)
     kind = p["check"]
     if kind == "route":
@@ -360,6 +409,15 @@ def run_case(name, params):
 
 def cases(tier, seed):
     out = []
+    for model, medium, rng in (("buyukurganci-2022", "0.49% MC-PBS",
+                                (22, 37)),
+                               ("buyukurganci-2022", "0.83% MC-PBS",
+                                (22, 37)),
+                               ("herold-2017", "0.49% MC-PBS", (18, 26)),
+                               ("kestin-1978", "water", (0, 40))):
+        out.append(("viscosity arguments %s %s" % (model, medium), dict(
+            check="visc-args", model=model, medium=medium, range=rng,
+            nev=2)))
     nluts = [3] if tier == "quick" else [3, 4, 5]
     for featx in ("area_um", "volume"):
         for nl in nluts:
@@ -455,6 +513,23 @@ def replay(case, params, v):
     model values: the two routes and the documented scaling must agree"""
     vals = v.get("values") or {}
     p = params
+    if p.get("check") == "visc-args":
+        gv = real(VISC, "get_viscosity")
+        t0 = np.array([float(vals.get("T%d" % i, p["range"][0]) or 0)
+                       for i in range(p["nev"])], dtype=float)
+        t = t0.copy()
+        with quiet():
+            e1 = gv(medium=p["medium"], channel_width=20.0, flow_rate=0.04,
+                    temperature=t, model=p["model"])
+        if not np.array_equal(t, t0):
+            return {"reproduced": True,
+                    "key": "get_viscosity|modifies-its-temperature-argument",
+                    "detail": "get_viscosity(model=%r, temperature=%r) "
+                    "leaves the caller's array as %r" % (
+                        p["model"], t0.tolist(), t.tolist())}
+        return {"reproduced": False, "key": "not-reproduced",
+                "detail": "temperature array unchanged (%r)" % (
+                    np.asarray(e1).tolist(),)}
     if p.get("lut_id"):
         return replay_registered(p)
     ge = real(EM, "get_emodulus")
